@@ -54,6 +54,12 @@ func coreLocks(tier string) []RunSpec {
 	for k := 0; k < 4; k++ {
 		out = append(out, RunSpec{Profile: "core:sigall-mixed-conditions", Params: map[string]int{"mixedcond": 1, "flag": 1, "lt": 0, "wv": 3, "ov": 0, "k": k}})
 	}
+	// one SIG_ALL input and one input under the same condition without the flag, in both orders, everything signed
+	for order := 1; order <= 2; order++ {
+		for k := 0; k < 3; k++ {
+			out = append(out, RunSpec{Profile: "core:mixed-flags", Params: map[string]int{"mixedflag": order, "flag": 0, "lt": 0, "wv": 3, "ov": 0, "pos": 0, "k": k}})
+		}
+	}
 	// a co-signer key listed twice, threshold one above the distinct keys that sign
 	for n := 2; n <= 4; n++ {
 		out = append(out, RunSpec{Profile: "core:duplicate-key", Params: map[string]int{"dupkey": 1, "nsigs": n, "wv": 6, "flag": 0, "lt": 0}})
@@ -368,7 +374,7 @@ func (lr *lockRun) step(rc *RunCtx, i int) {
 	c := lr.drawCfg(rc)
 	ks := W.ActiveKeyset(mint)
 	nLocked := 1 + T.Choose("lock.count", 2)
-	if rc.P("mixedcond", 0) == 1 {
+	if rc.P("mixedcond", 0) == 1 || rc.P("mixedflag", 0) > 0 {
 		nLocked = 2
 	}
 	src := m.pickProofs(mint, 2)
@@ -392,6 +398,25 @@ func (lr *lockRun) step(rc *RunCtx, i int) {
 		} else if lr.htlc {
 			c2 = nil
 		}
+	}
+	// ... or under the SAME condition but with the other signature flag: one input SIG_ALL, one not, in
+	// either order (a transaction with a SIG_ALL input needs every input to be SIG_ALL)
+	mixedFlag := false
+	if nLocked == 2 && c2 == nil && rc.P("mixedcond", 0) == 0 && (T.Chance("lock.mixedflag", 1, 5) || rc.P("mixedflag", 0) > 0) {
+		cp := *c
+		c2 = &cp
+		order := T.Choose("lock.mixedflag.order", 2)
+		if v := rc.P("mixedflag", 0); v > 0 {
+			order = v - 1
+		}
+		other := []string{"", "SIG_INPUTS"}[T.Choose("lock.mixedflag.other", 2)]
+		if order == 0 {
+			c.SigFlag, c2.SigFlag = other, "SIG_ALL" // the input that is not SIG_ALL comes first
+		} else {
+			c.SigFlag, c2.SigFlag = "SIG_ALL", other
+		}
+		mixedFlag = true
+		rc.S.Probe(lr.prop + "_mixed_flags")
 	}
 	cfgOf := func(k int) *LockCfg {
 		if k == 1 && c2 != nil {
@@ -439,7 +464,7 @@ func (lr *lockRun) step(rc *RunCtx, i int) {
 	// locked proofs are not plain purse content
 	m.User.remove(mint, locked)
 	_ = change
-	sigAll := c.SigFlag == "SIG_ALL"
+	sigAll := c.SigFlag == "SIG_ALL" || (mixedFlag && c2.SigFlag == "SIG_ALL")
 	// 2. attempts
 	nAttempts := 1 + T.Choose("att.n", 3)
 	for a := 0; a < nAttempts; a++ {
@@ -474,7 +499,9 @@ func (lr *lockRun) step(rc *RunCtx, i int) {
 			w, l := lr.inputWitness(T, cfgOf(k), lp.Secret, wv)
 			cp.Witness = w
 			label = l
-			if c2 != nil {
+			if c2 != nil && mixedFlag {
+				label += "+mixedflag"
+			} else if c2 != nil {
 				label += "+mixedcond"
 			}
 			if k == 0 {
